@@ -33,13 +33,24 @@ struct CaseAlphabet
 	}
 };
 
+// When a monitor sets this to the PRNG of the current case, automata built through the public
+// mutators get their rules and final states inserted in a random order (two thirds of the time):
+// internal hash containers then iterate in orders that sorted insertion never produces.
+inline vh::Rng*& insertionRng() { static vh::Rng* r = nullptr; return r; }
+
 // build through the public mutators (AddTransition / SetStateFinal)
 inline Aut mkExpl(const RTA& a, CaseAlphabet& ca, const std::vector<RRule>* order = nullptr)
 {
 	Aut x; x.SetAlphabet(ca.alpha);
 	auto add = [&](const RRule& r) { std::vector<size_t> ch(r.ch.begin(), r.ch.end()); x.AddTransition(ch, ca.num[r.sym], r.par); };
-	if (order) for (auto& r : *order) add(r); else for (auto& r : a.rules) add(r);
-	for (St f : a.fin) x.SetStateFinal(f);
+	std::vector<RRule> rules; if (order) rules = *order; else rules.assign(a.rules.begin(), a.rules.end());
+	std::vector<St> fin(a.fin.begin(), a.fin.end());
+	vh::Rng* g = insertionRng();
+	if (g && g->chance(2, 3)) { if (!order) std::shuffle(rules.begin(), rules.end(), *g); std::shuffle(fin.begin(), fin.end(), *g); }
+	bool finalsFirst = g && g->chance(1, 4);
+	if (finalsFirst) for (St f : fin) x.SetStateFinal(f);
+	for (auto& r : rules) add(r);
+	if (!finalsFirst) for (St f : fin) x.SetStateFinal(f);
 	return x;
 }
 
